@@ -129,6 +129,39 @@ def holdsC02 (E : Env) (obs : ParseObs) : Bool :=
   | .ok _, .err .. => true
   | .ok regions, .ok segs => boundsOutsideRegions regions (spansOf segs)
 
+/-! ### C02, metamorphic form: what a literal or comment contains does not matter -/
+
+/-- the interior of a region: between the quotes of a literal; after `--` up to the end of
+    a line comment; between `/*` and the closing `*/` (or the end of input) -/
+def Region.interior (inp : Bytes) (r : Region) : Nat × Nat :=
+  match r.kind with
+  | .lit => (r.a + 1, r.b - 1)
+  | .comment =>
+    if inp.getD r.a 0 == 45 then (r.a + 2, r.b)
+    else if r.a + 4 ≤ r.b && inp.getD (r.b - 2) 0 == 42 && inp.getD (r.b - 1) 0 == 47 then (r.a + 2, r.b - 2)
+    else (r.a + 2, r.b)
+
+/-- the input with the interior of every region overwritten by the letter `x`; newlines
+    are kept (line numbers of later errors legitimately depend on them) -/
+def blankRegions (inp : Bytes) (regions : List Region) : Bytes :=
+  (List.range inp.size).foldl (fun acc i =>
+    if inp.getD i 0 != 10 && regions.any (fun r => let (lo, hi) := r.interior inp; lo ≤ i && i < hi) then acc.push 120
+    else acc.push (inp.getD i 0)) (Array.mkEmpty inp.size)
+
+/-- kinds and sizes of the nodes, or the position of the error -/
+def ParseObs.shape : ParseObs → Except (Option Nat × Option Nat) (List (SegKind × Nat))
+  | .ok segs => .ok (segs.map fun s => (s.kind, s.raw.size))
+  | .err line col _ => .error (line, col)
+
+/-- C02 as a relation between two runs: the query and the query with its literal and
+    comment interiors blanked are parsed into the same node structure (or rejected at the
+    same position) -/
+def holdsC02opaque (orig blanked : ParseObs) : Bool :=
+  match orig.shape, blanked.shape with
+  | .ok a, .ok b => a == b
+  | .error a, .error b => a == b
+  | _, _ => false
+
 /-! ### C19: error positions -/
 
 /-- one rejected query: the error names a column, a line iff the input has several lines,
